@@ -2,63 +2,46 @@
 C04 — small-step model of `UnboundedMailbox` (actor/unbounded_mailbox.go): Vyukov's intrusive
 MPSC list.  One transition per atomic operation, labelled exactly as tools/yieldinject labels the
 sites of the Go code (`Kind:field`).  Nodes are the `ReceiveContext`s themselves: node 0 is the
-initial sentinel, node k ≥ 1 carries message k.
+initial sentinel, node k ≥ 1 carries message k (a dequeued message's context becomes the next
+sentinel, as in the Go code).
 -/
+import GoaktVerif.Model.C04.Core
+
 namespace GoaktVerif.Model.C04.Unbounded
+open GoaktVerif.Model.C04
 
 abbrev NodeId := Nat
 
-/-- program counter of a thread inside one mailbox operation, with its locals -/
-inductive PC where
-  | enq1 (v : NodeId)                 -- at `Store:next`  (value.next := nil)
-  | enq2 (v : NodeId)                 -- at `Swap:tail`
-  | enq3 (v prev : NodeId)            -- at `Store:next`  (prev.next := value)
-  | deq1                              -- at `Load:head`
-  | deq2 (h : NodeId)                 -- at `Load:next`
-  | deq3 (h n : NodeId)               -- at `Store:head`
-  | deq4 (h n : NodeId)               -- at `Store:next`  (head.next := nil, recycling the old sentinel)
-  | emp1                              -- IsEmpty: at `Load:head`
-  | emp2 (h : NodeId)                 -- IsEmpty: at `Load:next`
-  | len1                              -- Len: at `Load:head`
-  | len2 (h : NodeId)                 -- Len: at `Load:next` (first)
-  | len3 (cur : NodeId) (count : Nat) -- Len: at `Load:next` (loop)
-  deriving Repr, DecidableEq
-
-structure Thread where
-  pc : Option PC          -- none = between operations / finished
-  prog : List String      -- remaining operations
-  results : List String   -- results so far (reversed)
-  deriving Repr, DecidableEq
-
-structure Cfg where
-  next : List (NodeId × Option NodeId)  -- the `next` field of every node touched so far (assoc list, latest first)
+/-- shared state: the `next` field of every context, `m.head`, `m.tail` -/
+structure Sh where
+  next : NodeId → Option NodeId
   head : NodeId
   tail : NodeId
-  threads : List Thread
+
+def Sh.setNext (s : Sh) (n : NodeId) (x : Option NodeId) : Sh :=
+  { s with next := fun m => if m = n then x else s.next m }
+
+/-- program counter of a thread inside one mailbox operation, with its locals -/
+inductive PC where
+  | enq1 (v : NodeId)                 -- Enqueue: at `Store:next`  (value.next := nil)
+  | enq2 (v : NodeId)                 --          at `Swap:tail`
+  | enq3 (v prev : NodeId)            --          at `Store:next`  (prev.next := value)
+  | deq1                              -- Dequeue: at `Load:head`
+  | deq2 (h : NodeId)                 --          at `Load:next`
+  | deq3 (h n : NodeId)               --          at `Store:head`
+  | deq4 (h n : NodeId)               --          at `Store:next`  (head.next := nil, recycling the old sentinel)
+  | emp1                              -- IsEmpty: at `Load:head`
+  | emp2 (h : NodeId)                 --          at `Load:next`
+  | len1                              -- Len: at `Load:head`
+  | len2 (h : NodeId)                 --      at `Load:next` (first)
+  | len3 (cur : NodeId) (count : Nat) --      at `Load:next` (loop)
   deriving Repr, DecidableEq
 
-def getNext (c : Cfg) (n : NodeId) : Option NodeId :=
-  match c.next.find? (·.1 == n) with
-  | some (_, x) => x
-  | none => none
-
-def setNext (c : Cfg) (n : NodeId) (x : Option NodeId) : Cfg :=
-  { c with next := (n, x) :: c.next.filter (·.1 != n) }
-
-/-- first program counter of an operation -/
-def startOp (op : String) : Option PC :=
-  if op = "d" then some .deq1
-  else if op = "emp" then some .emp1
-  else if op = "len" then some .len1
-  else if op.startsWith "e" then (op.drop 1).toString.toNat?.map .enq1
-  else none
-
-/-- move a thread that finished an operation (result `r`) to the first point of its next operation -/
-def finishOp (t : Thread) (r : String) : Thread :=
-  let results := r :: t.results
-  match t.prog with
-  | [] => { pc := none, prog := [], results }
-  | op :: rest => { pc := startOp op, prog := rest, results }
+def start : Op → PC
+  | .enq v _ => .enq1 v
+  | .deq => .deq1
+  | .emp => .emp1
+  | .len => .len1
 
 def label : PC → String
   | .enq1 _ => "Store:next" | .enq2 _ => "Swap:tail" | .enq3 _ _ => "Store:next"
@@ -66,62 +49,32 @@ def label : PC → String
   | .emp1 => "Load:head" | .emp2 _ => "Load:next"
   | .len1 => "Load:head" | .len2 _ => "Load:next" | .len3 _ _ => "Load:next"
 
-/-- effect of the atomic operation at `pc` on the shared state and on the thread -/
-def exec (c : Cfg) (t : Thread) : PC → Cfg × Thread
-  | .enq1 v => (setNext c v none, { t with pc := some (.enq2 v) })
-  | .enq2 v => ({ c with tail := v }, { t with pc := some (.enq3 v c.tail) })
-  | .enq3 v prev => (setNext c prev (some v), finishOp t "ok")
-  | .deq1 => (c, { t with pc := some (.deq2 c.head) })
+/-- effect of the atomic operation at `pc` (and of the plain code up to the next site) -/
+def exec (s : Sh) : PC → Sh × Next PC
+  | .enq1 v => (s.setNext v none, .goto (.enq2 v))
+  | .enq2 v => ({ s with tail := v }, .goto (.enq3 v s.tail))
+  | .enq3 v prev => (s.setNext prev (some v), .ret .ok)
+  | .deq1 => (s, .goto (.deq2 s.head))
   | .deq2 h =>
-    match getNext c h with
-    | none => (c, finishOp t "nil")
-    | some n => (c, { t with pc := some (.deq3 h n) })
-  | .deq3 h n => ({ c with head := n }, { t with pc := some (.deq4 h n) })
-  | .deq4 h n => (setNext c h none, finishOp t (toString n))
-  | .emp1 => (c, { t with pc := some (.emp2 c.head) })
-  | .emp2 h => (c, finishOp t (if (getNext c h).isNone then "true" else "false"))
-  | .len1 => (c, { t with pc := some (.len2 c.head) })
+    match s.next h with
+    | none => (s, .ret .none)
+    | some n => (s, .goto (.deq3 h n))
+  | .deq3 h n => ({ s with head := n }, .goto (.deq4 h n))
+  | .deq4 h n => (s.setNext h none, .ret (.val n))
+  | .emp1 => (s, .goto (.emp2 s.head))
+  | .emp2 h => (s, .ret (.bool (s.next h).isNone))
+  | .len1 => (s, .goto (.len2 s.head))
   | .len2 h =>
-    match getNext c h with
-    | none => (c, finishOp t "0")
-    | some n => (c, { t with pc := some (.len3 n 1) })
+    match s.next h with
+    | none => (s, .ret (.num 0))
+    | some n => (s, .goto (.len3 n 1))
   | .len3 cur k =>
-    match getNext c cur with
-    | none => (c, finishOp t (toString k))
-    | some n => (c, { t with pc := some (.len3 n (k + 1)) })
+    match s.next cur with
+    | none => (s, .ret (.num k))
+    | some n => (s, .goto (.len3 n (k + 1)))
 
-def step (c : Cfg) (tid : Nat) : String × Cfg :=
-  match c.threads[tid]? with
-  | none => ("!nothread", c)
-  | some t =>
-    match t.pc with
-    | none => ("!done", c)
-    | some pc =>
-      let (c', t') := exec c t pc
-      (label pc, { c' with threads := c'.threads.set tid t' })
+def init : Sh := { next := fun _ => none, head := 0, tail := 0 }
 
-def mkThread (prog : List String) : Thread :=
-  match prog with
-  | [] => { pc := none, prog := [], results := [] }
-  | op :: rest => { pc := startOp op, prog := rest, results := [] }
-
-def init (progs : List (List String)) : Cfg :=
-  { next := [(0, none)], head := 0, tail := 0, threads := progs.map mkThread }
-
-def done (c : Cfg) (tid : Nat) : Bool :=
-  match c.threads[tid]? with
-  | some t => t.pc.isNone
-  | none => true
-
-/-- sequential drain from `head` (fuel = number of nodes known) -/
-def drain (c : Cfg) : Nat → NodeId → List NodeId
-  | 0, _ => []
-  | f + 1, h =>
-    match getNext c h with
-    | none => []
-    | some n => n :: drain c f n
-
-def final (c : Cfg) : String :=
-  " ".intercalate ((drain c (c.next.length + 1) c.head).map toString)
+def algo : Algo := { Sh, PC, start, label, exec }
 
 end GoaktVerif.Model.C04.Unbounded
